@@ -324,6 +324,25 @@ func runChainJob(r *Runner, j chainJob, idx int) {
 	case "mid":
 		t := baseTime()
 		st = &t
+	case "zero":
+		// legal but unusual instants: a supplied signing time is compared with the validity window whatever it is
+		t := time.Time{}
+		st = &t
+	case "zero-unix":
+		t := time.Unix(-62135596800, 0)
+		st = &t
+	case "zero-loc":
+		t := time.Time{}.In(time.FixedZone("x", 3600))
+		st = &t
+	case "zero+1ns":
+		t := time.Time{}.Add(time.Nanosecond)
+		st = &t
+	case "epoch":
+		t := time.Unix(0, 0)
+		st = &t
+	case "far":
+		t := time.Date(9999, 12, 31, 23, 59, 59, 0, time.UTC)
+		st = &t
 	default:
 		var ci int
 		var bound string
@@ -458,6 +477,9 @@ func genChain(r *Runner, purpose string) {
 	// 3. signing times at and around every bound of every certificate (code signing only)
 	if purpose == "cs" {
 		for n := 1; n <= maxN; n++ {
+			for _, k := range []string{"zero", "zero-unix", "zero-loc", "zero+1ns", "epoch", "far"} {
+				jobs = append(jobs, chainJob{purpose: purpose, n: n, stKind: k, label: "signing-time-unusual"})
+			}
 			for ci := 0; ci < n; ci++ {
 				for _, b := range []string{"b", "a"} {
 					for _, d := range []int{-1000, -1, 0, 1, 500, 1000} {
